@@ -9,7 +9,7 @@ Mapping of the model's actions (the `act` history variable carries the parameter
   close e o     channel.close()
   data e        the oldest DATA datagram of the peer is delivered to e, the SACK goes straight back
   reconfig m    the RE-CONFIG datagram carrying request / response m is delivered
-  lose m        ... is dropped (only with the deviation LossyReconfig = finding K02)
+  lose m        ... is dropped                      retx e   the requester's RE-CONFIG timer fires
   end e         transport_e.stop(); its ABORT is lost (the peer ends by its own `end`)
 The flush tasks are the only scheduling freedom the model has inside one endpoint: the harness
 wraps the INSTANCE attribute `_data_channel_flush` so that calls made on behalf of
@@ -233,6 +233,12 @@ class DclLockStep:
             else:
                 env.deliver(pkt)
             return True
+        if op == "retx":
+            ts = [h for side, name, h in env.timers(e) if name == "_reconfig_timer_expired"]
+            if not ts:
+                return False
+            env.fire(ts[0])
+            return True
         if op == "end":
             env.stop(e)
             self.down.add(e)
@@ -244,7 +250,7 @@ class DclLockStep:
     # ------------------------------------------------------------------ projection of the code's state
     def project(self):
         env = self.env
-        P = {"obj": {}, "est": {}, "reg": {}, "dcq": {}, "fifo": {}, "rq": {}, "req": {}, "nreq": {}, "bag": set()}
+        P = {"obj": {}, "est": {}, "reg": {}, "dcq": {}, "fifo": {}, "rq": {}, "req": {}, "nreq": {}, "rdone": {}, "bag": set()}
         for n, ch in self.real.items():
             inf = self.info[n]
             P["obj"][n] = {"used": True, "owner": inf["owner"], "id": NOID if ch.id is None else ch.id,
@@ -261,6 +267,7 @@ class DclLockStep:
             P["rq"][e] = list(ep._reconfig_queue)
             P["req"][e] = sorted(ep._reconfig_request.streams) if ep._reconfig_request is not None else []
             P["nreq"][e] = (ep._reconfig_request_seq - self.nreq0[e]) % 2 ** 32
+            P["rdone"][e] = (ep._reconfig_response_seq - self.nreq0[Env.peer(e)] + 1) % 2 ** 32
         for pkt in env.net:
             try:
                 chunks = S.parse_packet(pkt["data"])[3]
@@ -315,6 +322,8 @@ class DclLockStep:
                 return "req[%s] model=%s code=%s" % (e, sorted(state["req"][e]), P["req"][e])
             if state["nreq"][e] != P["nreq"][e]:
                 return "nreq[%s] model=%s code=%s" % (e, state["nreq"][e], P["nreq"][e])
+            if P["est"][e] == "up" and state["rdone"][e] != P["rdone"][e]:
+                return "rdone[%s] model=%s code=%s" % (e, state["rdone"][e], P["rdone"][e])
         mbag = {(m["to"], m["kind"], tuple(sorted(m["ids"])) if m["kind"] == "REQ" else None, m["n"]) for m in state["bag"]}
         # a datagram addressed to an endpoint that has ended stays in the model's bag and in the net
         if mbag != P["bag"]:
